@@ -272,6 +272,62 @@ fn size_and_encode<T: Message>(pk: Pk, v: &T) -> Result<(usize, Vec<u8>, String)
     }
 }
 
+fn linked_concat(lb: &mut linkedbytes::LinkedBytes) -> Vec<u8> {
+    let mut out: Vec<u8> = Vec::new();
+    lb.sync_write_all_vectored(&mut out).expect("write to Vec");
+    out
+}
+
+/// the same value through the LinkedBytes flavour of the writer, zero-copy off and on (payloads of 4096 bytes and more
+/// are then attached as nodes of their own): the concatenation must be the bytes the BytesMut flavour wrote
+fn linked_flavours<T: Message>(pk: Pk, v: &T, n: usize, want: &[u8]) -> String {
+    let mut note = String::new();
+    for zc in [false, true] {
+        let got: Result<Vec<u8>, ThriftException> = (|| match pk {
+            Pk::Binary => {
+                let mut lb = linkedbytes::LinkedBytes::new();
+                let mut p = TBinaryProtocol::new(&mut lb, zc);
+                v.encode(&mut p)?;
+                drop(p);
+                Ok(linked_concat(&mut lb))
+            }
+            Pk::BinaryLe => {
+                let mut lb = linkedbytes::LinkedBytes::new();
+                let mut p = TBinaryLeProtocol::new(&mut lb, zc);
+                v.encode(&mut p)?;
+                drop(p);
+                Ok(linked_concat(&mut lb))
+            }
+            Pk::Compact => {
+                let mut lb = linkedbytes::LinkedBytes::new();
+                let mut p = TCompactOutputProtocol::new(&mut lb, zc);
+                v.encode(&mut p)?;
+                drop(p);
+                Ok(linked_concat(&mut lb))
+            }
+            Pk::Unchecked => {
+                let mut lb = linkedbytes::LinkedBytes::with_capacity(n + 64);
+                let window: &'static mut [u8] = unsafe {
+                    let l = lb.bytes_mut().len();
+                    std::slice::from_raw_parts_mut(lb.bytes_mut().as_mut_ptr().add(l), lb.bytes_mut().capacity() - l)
+                };
+                let mut p = unsafe { TBinaryUnsafeOutputProtocol::new(&mut lb, window, zc) };
+                v.encode(&mut p)?;
+                let idx = p.index();
+                drop(p);
+                unsafe { bytes::BufMut::advance_mut(lb.bytes_mut(), idx) };
+                Ok(linked_concat(&mut lb))
+            }
+        })();
+        match got {
+            Ok(b) if b == want => {}
+            Ok(b) => note.push_str(&format!(" NOTE linked-zc{}-differs {} vs {} bytes", zc as u8, b.len(), want.len())),
+            Err(_) => note.push_str(&format!(" NOTE linked-zc{}-encode-error", zc as u8)),
+        }
+    }
+    note
+}
+
 pub fn run<T: Message + Debug + Default>(c: &Case) -> String {
     match c.op {
         "dec" => match decode_any::<T>(c) {
@@ -283,7 +339,10 @@ pub fn run<T: Message + Debug + Default>(c: &Case) -> String {
             None => "hang".to_string(),
             Some((Err(e), _)) => format!("err {}", err_class(&e)),
             Some((Ok(v), rem)) => match size_and_encode(c.pk, &v) {
-                Ok((n, bytes, note)) => format!("ok {:?} REM {} SIZE {} ENC {}{}", v, rem, n, hex(&bytes), note),
+                Ok((n, bytes, mut note)) => {
+                    note.push_str(&linked_flavours(c.pk, &v, n, &bytes));
+                    format!("ok {:?} REM {} SIZE {} ENC {}{}", v, rem, n, hex(&bytes), note)
+                }
                 Err(e) => format!("encerr {}", err_class(&e)),
             },
         },
